@@ -628,10 +628,10 @@ func (n *LocalNode) Sess(lSeid uint64) (*Sess, error) {
 	if lSeid == 0 {
 		return nil, errors.New("Sess: invalid lSeid:0")
 	}
-	i := int(lSeid) - 1
-	if i >= len(n.sess) {
+	if lSeid > uint64(len(n.sess)) {
 		return nil, errors.Errorf("Sess: sess not found (lSeid:%#x)", lSeid)
 	}
+	i := int(lSeid) - 1
 	sess := n.sess[i]
 	if sess == nil {
 		return nil, errors.Errorf("Sess: sess not found (lSeid:%#x)", lSeid)
@@ -675,10 +675,10 @@ func (n *LocalNode) DeleteSess(lSeid uint64) ([]report.USAReport, error) {
 	if lSeid == 0 {
 		return nil, errors.New("DeleteSess: invalid lSeid:0")
 	}
-	i := int(lSeid) - 1
-	if i >= len(n.sess) {
+	if lSeid > uint64(len(n.sess)) {
 		return nil, errors.Errorf("DeleteSess: sess not found (lSeid:%#x)", lSeid)
 	}
+	i := int(lSeid) - 1
 	if n.sess[i] == nil {
 		return nil, errors.Errorf("DeleteSess: sess not found (lSeid:%#x)", lSeid)
 	}
